@@ -1644,6 +1644,9 @@ impl<'a> Ctx<'a> {
                     |v| v.range(self.tree),
                 );
 
+                // the argument is only visible inside this arm
+                self.create_new_child_scope();
+
                 let switch_local = if let Some(argument) = argument {
                     let switch_local = self.bodies.switch_locals.alloc(SwitchArg {
                         scrutinee,
@@ -1660,6 +1663,8 @@ impl<'a> Ctx<'a> {
                 };
 
                 let body = self.lower_expr(arm.body(self.tree));
+
+                self.destroy_current_scope();
 
                 let arm = SwitchArm {
                     variant,
